@@ -495,6 +495,29 @@ func SignV1(cs consensus.State, txn *types.Transaction, partial bool) {
 	}
 }
 
+// SignV1Covering signs like SignV1 with explicit coverage, except that the first signature is a whole-transaction
+// signature that additionally covers the other signatures of the transaction (CoveredFields.Signatures), listed from
+// the last one down to the second, so that neither the positions in the list nor the set of covered indices coincide
+// with 0..k-1. It needs at least two signatures; otherwise it falls back to SignV1(partial = false) and reports false.
+func SignV1Covering(cs consensus.State, txn *types.Transaction) bool {
+	SignV1(cs, txn, true)
+	n := len(txn.Signatures)
+	if n < 2 || len(txn.Signatures[0].Signature) != 64 {
+		SignV1(cs, txn, false)
+		return false
+	}
+	first := &txn.Signatures[0]
+	first.CoveredFields = types.CoveredFields{WholeTransaction: true}
+	for i := n - 1; i >= 1; i-- {
+		first.CoveredFields.Signatures = append(first.CoveredFields.Signatures, uint64(i))
+	}
+	if !ResignV1Slot(cs, txn, 0) {
+		SignV1(cs, txn, false)
+		return false
+	}
+	return true
+}
+
 // ResignV1Slot recomputes signature si of txn with the key its PublicKeyIndex names in the parent's unlock conditions
 // (as revealed by the input or revision that has this parent); false if the pool does not hold that key.
 func ResignV1Slot(cs consensus.State, txn *types.Transaction, si int) bool {
@@ -526,7 +549,7 @@ func ResignV1Slot(cs consensus.State, txn *types.Transaction, si int) bool {
 	}
 	var h types.Hash256
 	if sig.CoveredFields.WholeTransaction {
-		h = cs.WholeSigHash(*txn, sig.ParentID, sig.PublicKeyIndex, sig.Timelock, nil)
+		h = cs.WholeSigHash(*txn, sig.ParentID, sig.PublicKeyIndex, sig.Timelock, sig.CoveredFields.Signatures)
 	} else {
 		h = cs.PartialSigHash(*txn, sig.CoveredFields)
 	}
